@@ -784,6 +784,30 @@ Theorem axfr_style_ixfr_converges_general : forall v z0 ser ws,
 Proof. exact XfrGeneral.axfr_style_ixfr_converges_general. Qed.
 Print Assumptions axfr_style_ixfr_converges_general.
 
+Theorem udp_ixfr_general : forall v0 chain z0 w,
+  XfrGeneral.chain_ok_g v0 chain -> zeq z0 (zone_of v0) ->
+  header_ok tIXFR w -> w_records w = ixfr_stream v0 chain ->
+  exists z', inbound_xfr z0 tIXFR (Some (v_serial v0)) true [w] = (Done z', 1%nat)
+             /\ zeq z' (zone_of (last chain v0)).
+Proof. exact XfrGeneral.udp_ixfr_general. Qed.
+Print Assumptions udp_ixfr_general.
+
+(* "ends early", versions of any content: every proper prefix of the stream in any division into messages *)
+Theorem ixfr_early_end_rejected_general : forall v0 chain z0 ws q,
+  XfrGeneral.chain_ok_g v0 chain -> zeq z0 (zone_of v0) ->
+  Forall (header_ok tIXFR) ws -> q <> [] ->
+  concat (map w_records ws) ++ q = ixfr_stream v0 chain ->
+  exists e n, inbound_xfr z0 tIXFR (Some (v_serial v0)) false ws = (Error e z0, n).
+Proof. exact XfrGeneral.ixfr_early_end_rejected_general. Qed.
+Print Assumptions ixfr_early_end_rejected_general.
+
+Theorem axfr_early_end_rejected_general : forall v z0 ser ws q,
+  XfrGeneral.version_wf_g v -> Forall (header_ok tAXFR) ws -> q <> [] ->
+  concat (map w_records ws) ++ q = axfr_stream v ->
+  exists e n, inbound_xfr z0 tAXFR ser false ws = (Error e z0, n).
+Proof. exact XfrGeneralAxfr.axfr_early_end_rejected_general. Qed.
+Print Assumptions axfr_early_end_rejected_general.
+
 (* the general forms subsume the restricted ones *)
 Theorem general_covers_restricted : forall v0 chain, chain_ok v0 chain -> XfrGeneral.chain_ok_g v0 chain.
 Proof. exact XfrGeneral.chain_ok_ok_g. Qed.
